@@ -54,8 +54,13 @@ def rule_cumulative(ctx):
             return False
         if atom[0] == 'cmp' and atom[1] == 'is' and atom[3] == ('name', 'str'):
             return True
-        if atom[0] == 'cmp' and atom[1] == 'in' and atom[2] == ('attr', ('call', ('name', '_get_func'), (const('cumsum'), P_('skipna')), ()), '__name__'):
-            return True
+        fname = ('attr', ('call', ('name', '_get_func'), (const('cumsum'), P_('skipna')), ()), '__name__')
+        if T.contains(atom, fname):
+            # the scenario of this rule: the function found for 'cumsum' is called cumsum (any test on its name is evaluated for that name)
+            from ..rules import val_eval, UNKNOWN
+            r = val_eval(atom, {fname: 'cumsum'})
+            if r is not UNKNOWN:
+                return bool(r)
         return None
     ev = run(ctx, aaa, bind={'func': const('cumsum')}, oracle=oracle)
     good = False
@@ -151,7 +156,7 @@ def rule_diff(ctx):
                 mids = [('binop', '*', const(0.5), ('binop', '+', a, b)), ('binop', '*', const(0.5), ('binop', '+', b, a)),
                         ('binop', '/', ('binop', '+', a, b), const(2)), ('binop', '/', ('binop', '+', a, b), const(2.0)),
                         ('binop', '*', ('binop', '+', a, b), const(0.5))]
-                good = res == raw and newaxis[0] == 'call' and T.call_name(newaxis) == 'Axis' and newaxis[2][0] in mids and newaxis[2][1] == NAME
+                good = res == raw and newaxis[0] == 'call' and T.call_name(newaxis) == 'Axis' and newaxis[2][0] in mids and newaxis[2][1] in (NAME, ('attr', OLD, 'name'))
                 if not good:
                     ctx.violated('R2', fi, 'newaxis = ' + T.show(newaxis)[:160], 'centered differences are labelled by the midpoints 0.5*(v[:-1] + v[1:]) '
                                  'under the same name', node=p.node)
@@ -291,6 +296,12 @@ def rule_arg(ctx):
                 if good:
                     lid = v[2][0][3][0][0]
                     good = v[2][0][2] == ('sub', ('attr', ('sub', ('attr', OBJ, 'axes'), ('idx', unr, lid)), 'values'), ('elem', unr, lid))
+                if not good and v[0] == 'call' and T.dotted(v[1]) == 'tuple' and v[2][0][0] == 'comp' and len(v[2][0][3]) == 1:
+                    # other spelling of the pairing: zip(obj.axes, indices) -> ax.values[index]
+                    src, lid = v[2][0][3][0][1], v[2][0][3][0][0]
+                    axes_t = ('attr', OBJ, 'axes')
+                    if src[0] == 'call' and T.dotted(src[1]) == 'zip' and not src[3] and sorted(src[2], key=repr) == sorted((axes_t, unr), key=repr):
+                        good = v[2][0][2] == ('sub', ('attr', ('elem', axes_t, lid), 'values'), ('elem', unr, lid))
                 if not good:
                     ctx.violated('R3', fi, 'return ' + T.show(v)[:140], 'flattened case: unravel the position on obj.shape and pair the i-th index with '
                                  'obj.axes[i]', node=p.node)
